@@ -57,6 +57,8 @@ type c12touch struct {
 	deleted bool
 	prefix  string
 	before  string // the node's answer just before the delivery
+	holder, holderRec string
+	nodeEpoch uint64
 	seq     int
 	ticks   int
 	from    int
